@@ -1,43 +1,91 @@
+// explore is a debugging aid of the C12 check (it is not part of the check):
+//
+//	explore              reads candidate statements from stdin (one per line, "\n" escapes) and lints each alone in
+//	                     vcl_recv, vcl_deliver and a user subroutine called from vcl_recv (catalogue calibration)
+//	explore FILE         lints every program of a repro file ("== name" starts a program, "-- file.vcl" a file of it)
 package main
 
 import (
 	"bufio"
 	"fmt"
 	"os"
-	"path/filepath"
 	"strings"
 
 	"verif/harness/lintutil"
 )
 
-// usage: explore            reads candidate statements from stdin (one per line, \n escapes) and lints each in three contexts
-//        explore DIR        lints DIR/main.vcl with the other *.vcl files of DIR as modules
+func lintFiles(files map[string]string) {
+	mods := map[string]string{}
+	for f, t := range files {
+		if f != "main.vcl" {
+			mods[strings.TrimSuffix(f, ".vcl")] = t
+		}
+	}
+	r := lintutil.Lint(files["main.vcl"], &lintutil.MapResolver{Main: files["main.vcl"], Modules: mods, Budget: 100})
+	if r.ParseErr != nil {
+		fmt.Println("   PARSE ERROR", r.ParseErr)
+	}
+	if r.Fatal != "" {
+		fmt.Println("   FATAL", r.Fatal)
+	}
+	for _, d := range r.Diags {
+		fmt.Printf("   %s:%d:%d [%s] %s: %s\n", d.File, d.Line, d.Pos, d.Rule, d.Severity, strings.SplitN(d.Msg, "\n", 2)[0])
+	}
+	fmt.Printf("   (%d diagnostics)\n", len(r.Diags))
+}
+
+var ignoreLine = strings.NewReplacer()
+
+func stripDirectives(t string) string {
+	var out []string
+	for _, l := range strings.Split(t, "\n") {
+		if i := strings.Index(l, "falco-ignore"); i >= 0 {
+			// drop the comment (a whole-line comment becomes an empty line so that line numbers stay)
+			for _, m := range []string{"//", "#", "/*"} {
+				if j := strings.Index(l, m+" falco-ignore"); j >= 0 {
+					l = strings.TrimRight(l[:j], " ")
+				}
+			}
+		}
+		out = append(out, l)
+	}
+	return strings.Join(out, "\n")
+}
+
 func main() {
 	if len(os.Args) > 1 {
-		dir := os.Args[1]
-		mainb, err := os.ReadFile(filepath.Join(dir, "main.vcl"))
+		b, err := os.ReadFile(os.Args[1])
 		if err != nil {
 			panic(err)
 		}
-		mods := map[string]string{}
-		fs, _ := filepath.Glob(filepath.Join(dir, "*.vcl"))
-		for _, f := range fs {
-			if filepath.Base(f) != "main.vcl" {
-				b, _ := os.ReadFile(f)
-				mods[strings.TrimSuffix(filepath.Base(f), ".vcl")] = string(b)
+		var name, file string
+		files := map[string]string{}
+		flush := func() {
+			if name == "" {
+				return
+			}
+			fmt.Println("== " + name)
+			plain := map[string]string{}
+			for f, t := range files {
+				plain[f] = stripDirectives(t)
+			}
+			fmt.Println("  D0 (directive comments removed, same line numbers):")
+			lintFiles(plain)
+			fmt.Println("  D1 (as written):")
+			lintFiles(files)
+		}
+		for _, l := range strings.Split(string(b), "\n") {
+			switch {
+			case strings.HasPrefix(l, "== "):
+				flush()
+				name, files, file = l[3:], map[string]string{}, ""
+			case strings.HasPrefix(l, "-- "):
+				file = strings.TrimSpace(l[3:])
+			case file != "":
+				files[file] += l + "\n"
 			}
 		}
-		r := lintutil.Lint(string(mainb), &lintutil.MapResolver{Main: string(mainb), Modules: mods, Budget: 100})
-		if r.ParseErr != nil {
-			fmt.Println("PARSE ERROR", r.ParseErr)
-		}
-		if r.Fatal != "" {
-			fmt.Println("FATAL", r.Fatal)
-		}
-		for _, d := range r.Diags {
-			fmt.Printf("%s:%d:%d [%s] %s: %s\n", d.File, d.Line, d.Pos, d.Rule, d.Severity, strings.SplitN(d.Msg, "\n", 2)[0])
-		}
-		fmt.Printf("(%d diagnostics)\n", len(r.Diags))
+		flush()
 		return
 	}
 	ctxs := []struct{ name, pre, post string }{
